@@ -175,6 +175,11 @@ def main():
         emit("options_" + n.lower(), const(options, n, oenv))
     menv = {}
     emit("migration_commit_size", const(migration, "COMMIT_SIZE", menv))
+    # Model/MigrateDriver.v: a column is selected when forced or when its options differ - the metadata itself selects nothing
+    if not re.search(r"fn columns_to_migrate\(&self\) -> std::collections::BTreeSet<u8> \{\s*std::collections::BTreeSet::new\(\)\s*\}", options):
+        raise Broken("options.rs: Metadata::columns_to_migrate no longer returns the empty set (Model/MigrateDriver.v `selected` assumes it)")
+    if not re.search(r"if source_options\.columns\[c as usize\] != to\.columns\[c as usize\] \{\s*to_migrate\.insert\(c\);", migration):
+        raise Broken("migration.rs: a column whose options differ is no longer added to to_migrate by the loop the model follows")
     benv = {}
     for n in ["ORDER", "ORDER_CHILD", "HEADER_SIZE", "MAX_KEYSIZE_ENCODED_SIZE", "ENTRY_CAPACITY"]:
         emit("btree_" + n.lower(), const(btree, n, benv))
